@@ -300,9 +300,9 @@ def call_view(H, view, name, picks):
         r = list(m())
         return r
     if name == "isolates" and view == "nodes" and "ignore_singletons" in inspect.signature(m).parameters:
-        return list(m(ignore_singletons=bool(k % 2)))
+        return [list(m(ignore_singletons=b)) for b in (False, True)]  # a two-valued option: both, in one case
     if name == "maximal":
-        return list(m(strict=bool(k % 2)))
+        return [list(m(strict=b)) for b in (False, True)]
     return consume(m())
 
 
@@ -326,6 +326,7 @@ def _scribble(x):
         pass
 
 
+CHEAP_STATS = {"degree", "in_degree", "out_degree", "size", "order", "head_size", "tail_size", "head_order", "tail_order", "attrs", "average_neighbor_degree"}
 OTHERS = []  # (second input network, its deep snapshot before the call) registered by a call, checked by run_case
 
 
@@ -440,6 +441,42 @@ def run_case(case, ctx):
             od = nets.diff_deep(ob, nets.snap_deep(other))
             ctx.check(not od, ("mutated", name, "second-operand", "+".join(od)), lambda: "%s (%s) changed its second input: %r" % (name, status, od))
         ctx.event(status + ":" + name)
+        # every cheap accessor of this class on the same network as well (all view methods and statistics, two-valued options
+        # both ways): one drawn callable per case would visit each of them only a few dozen times per run
+        if not diff and not case.get("no_batch"):
+            di = isinstance(H, xgi.DiHypergraph)
+            batch = [n for n, t in VIEWMETHODS.items() if bool(t[2]) == di and n != name] + [n for n, t in STATS.items() if bool(t[2]) == di and n != name and t[1] in CHEAP_STATS]
+
+            # the class-level accessors too (copy, cleanup(in_place=False), <<, pickling, ...); not dual of a complex in the batch:
+            # the dual of a simplicial complex is closed downward again and can be exponentially large
+            batch += [n for n in METHODS if n != name and not (n == "method:dual" and isinstance(H, xgi.SimplicialComplex))]
+
+            def run_batch(G, each):
+                for nm in batch:
+                    try:
+                        if nm.startswith("method:"):
+                            call_method(G, METHODS[nm], picks)
+                        elif nm.startswith("stat:"):
+                            call_stat(G, STATS[nm][0], STATS[nm][1], picks)
+                        else:
+                            call_view(G, VIEWMETHODS[nm][0], VIEWMETHODS[nm][1], picks)
+                    except Exception:  # noqa: BLE001
+                        pass
+                    if each:
+                        now = nets.snap_deep(G)
+                        d2 = nets.diff_deep(before, now)
+                        if d2:
+                            return nm, d2, now
+                return None
+
+            run_batch(H, False)  # one snapshot for the whole batch ...
+            if nets.diff_deep(before, nets.snap_deep(H)):
+                hit = run_batch(nets.build(case["spec"]), True)  # ... and, if it differs, a second pass on a fresh build that names the accessor
+                if hit is not None:
+                    nm, d2, now = hit
+                    ctx.fail(("mutated", nm, "+".join(d2)), "%s (batch of accessors after %s) changed %r: before %r after %r" % (nm, name, d2, {k: before[k] for k in d2}, {k: now[k] for k in d2}))
+                else:
+                    ctx.fail(("mutated", "accessor-batch", "not-attributable"), "the batch of view methods and statistics changed the network, no single accessor does on a fresh build")
         ctx.mark(status == "returned" and len(before["edges"]) >= 2)
     finally:
         shutil.rmtree(tmp, ignore_errors=True)
